@@ -20,6 +20,7 @@ conservation in the escape loop, R07.2 attribute values escaped between quotes, 
 tree builder's, R07.4 html_name is Some only under an HTML-namespace test (start_elem and new agree), R07.5 one
 push per start_elem and one pop per end_elem, R07.6 reviewed normal forms of html5ever::serialize and
 markup5ever::serialize.
+R07.7 void-like elements = the standard's 18; R07.8 references ending in ';' are decoded in attributes whatever follows.
 """
 ASSUMPTIONS = ["memchr2/memchr3 return the first position of any needle", "io::Write::write_all writes the whole slice"]
 AREA = "html_serialize"
